@@ -72,7 +72,11 @@ def check_states(m, K, W):
     holder.update(I=I, M=M)
     I.handlers.update(ac.machine_handlers(M))
     fn = [f for f in irsym.module_funcs(m) if f.sym_name.data == "f"][0]
-    I.run_func(fn, args)
+    try:
+        I.run_func(fn, args)
+    except irsym.Undefined as e:
+        # the traced program links a setup to a state that is not defined on this path (a non-dominating value)
+        eng().oblige("traced:every_linked_state_is_defined_on_the_path_that_reaches_the_setup", False, dict(error=str(e)[:160]))
     # threading: every setup's in_state must be the state that really precedes it -> covered by the register check
     # at the setup's out_state (infer_state_of(out_state) includes the inherited fields).
 
